@@ -30,6 +30,11 @@ def is_const_expr(n, known):
         return is_const_expr(n.operand, known)
     if isinstance(n, ast.BinOp) and isinstance(n.op, (ast.Add, ast.Sub, ast.Mult, ast.FloorDiv)):
         return is_const_expr(n.left, known) and is_const_expr(n.right, known)
+    if isinstance(n, ast.Lambda) and not n.args.defaults and not n.args.kw_defaults and not n.args.vararg and not n.args.kwarg:
+        # a closed function value: nothing but its parameters and module-level names
+        params = {a.arg for a in n.args.args + n.args.kwonlyargs}
+        return not any(isinstance(x, (ast.Lambda, ast.NamedExpr, ast.Yield, ast.Await)) for x in ast.walk(n.body)) and \
+            not any(isinstance(x, ast.Name) and isinstance(x.ctx, ast.Store) for x in ast.walk(n.body)) and bool(params)
     if isinstance(n, (ast.Tuple, ast.List)) and n.elts and len(n.elts) <= 8:
         # tuples of constants, enum members, module-level objects (codecs, classes) and nested such tuples
         return all(is_const_expr(e, known) or _enum_member(e) or isinstance(e, ast.Name)
@@ -62,10 +67,38 @@ def const_name_ok(name, class_level):
     return name.startswith("_") or name.isupper()
 
 
+def _fold_augmented(body):
+    """X = A ... X += B  (same block, X not read in between)  ==>  X = A + B at the place of the `+=`.  Returns the names that are
+    still augmented afterwards (those are not constants)."""
+    changed = True
+    while changed:
+        changed = False
+        for j, st in enumerate(body):
+            if isinstance(st, ast.AugAssign) and isinstance(st.target, ast.Name) and isinstance(st.op, ast.Add):
+                x = st.target.id
+                i = next((k for k in range(j - 1, -1, -1) if isinstance(body[k], ast.Assign) and len(body[k].targets) == 1 and isinstance(body[k].targets[0], ast.Name)
+                          and body[k].targets[0].id == x), None)
+                if i is None:
+                    continue
+                between = body[i + 1:j]
+                if any(isinstance(n, ast.Name) and n.id == x for b in between for n in ast.walk(b)) or any(isinstance(n, ast.Name) and n.id == x for n in ast.walk(st.value)):
+                    continue
+                new = ast.copy_location(ast.Assign(targets=[ast.Name(id=x, ctx=ast.Store())], value=ast.BinOp(left=body[i].value, op=ast.Add(), right=st.value), lineno=st.lineno), st)
+                ast.fix_missing_locations(new)
+                body[j] = new
+                del body[i]
+                changed = True
+                break
+    return {st.target.id for st in body if isinstance(st, ast.AugAssign) and isinstance(st.target, ast.Name)}
+
+
 def collect_constants(tree: ast.Module):
     """({module const name: value node}, {class name: {const name: value node}})"""
     mod = {}
     counts = {}
+    aug_mod = _fold_augmented(tree.body)
+    for a in aug_mod:
+        counts[a] = 2
     for st in tree.body:
         targets = []
         if isinstance(st, ast.Assign):
@@ -94,14 +127,21 @@ def collect_constants(tree: ast.Module):
             if any(ast.unparse(b) in ("Enum", "IntEnum", "enum.Enum", "enum.IntEnum") for b in st.bases):
                 continue
             d = {}
+            aug_cls = _fold_augmented(st.body)
+            ccount = {}
+            for s in st.body:
+                for t in (s.targets if isinstance(s, ast.Assign) else [s.target] if isinstance(s, ast.AnnAssign) and s.value is not None else []):
+                    for x in ast.walk(t):
+                        if isinstance(x, ast.Name):
+                            ccount[x.id] = ccount.get(x.id, 0) + 1
             for s in st.body:
                 if isinstance(s, ast.Assign) and len(s.targets) == 1 and isinstance(s.targets[0], ast.Name):
                     n = s.targets[0].id
-                    if const_name_ok(n, True) and is_const_expr(s.value, {**mod, **d}):
+                    if const_name_ok(n, True) and n not in aug_cls and ccount.get(n) == 1 and is_const_expr(s.value, {**mod, **d}):
                         d[n] = s.value
                 elif isinstance(s, ast.AnnAssign) and isinstance(s.target, ast.Name) and s.value is not None:
                     n = s.target.id
-                    if const_name_ok(n, True) and is_const_expr(s.value, {**mod, **d}):
+                    if const_name_ok(n, True) and n not in aug_cls and ccount.get(n) == 1 and is_const_expr(s.value, {**mod, **d}):
                         d[n] = s.value
             # a constant assigned through self/cls anywhere is not a constant
             for n in ast.walk(st):
@@ -134,9 +174,12 @@ class ConstSubst(ast.NodeTransformer):
 
     def visit_ClassDef(self, node):
         prev = self.cls
+        prev_depth = getattr(self, "cls_depth", -1)
         self.cls = node.name
+        self.cls_depth = len(self.shadow)
         self.generic_visit(node)
         self.cls = prev
+        self.cls_depth = prev_depth
         return node
 
     def visit_FunctionDef(self, node):
@@ -152,6 +195,9 @@ class ConstSubst(ast.NodeTransformer):
     visit_AsyncFunctionDef = visit_FunctionDef
 
     def visit_Name(self, node):
+        # a bare name in the class body (not inside a method) is the class-level constant of that name
+        if isinstance(node.ctx, ast.Load) and self.cls is not None and len(self.shadow) == self.cls_depth and node.id in self.classes.get(self.cls, {}):
+            return ast.copy_location(self.visit(copy.deepcopy(self.classes[self.cls][node.id])), node)
         if isinstance(node.ctx, ast.Load) and node.id in self.mod and node.id not in self.shadow[-1]:
             return ast.copy_location(self.visit(copy.deepcopy(self.mod[node.id])), node)
         return node
@@ -205,12 +251,21 @@ def inline_private_properties(tree):
     n = 0
     for cls in [st for st in tree.body if isinstance(st, ast.ClassDef)]:
         props = {}
+        public = set()
         for s_ in cls.body:
             if isinstance(s_, ast.FunctionDef) and s_.name.startswith("_") and not s_.name.startswith("__") and s_.name not in PROTECTED \
                     and [ast.unparse(d) for d in s_.decorator_list] == ["property"] and len(s_.args.args) == 1:
                 body = strip_doc(s_.body)
                 if len(body) == 1 and isinstance(body[0], ast.Return) and body[0].value is not None:
                     props[s_.name] = (s_.args.args[0].arg, body[0].value, s_)
+            # public COUNT properties (`return len(self.<attr>)`): inside the class, self.<name> is that count (the property stays)
+            elif isinstance(s_, ast.FunctionDef) and not s_.name.startswith("_") and [ast.unparse(d) for d in s_.decorator_list] == ["property"] and len(s_.args.args) == 1:
+                body = strip_doc(s_.body)
+                if len(body) == 1 and isinstance(body[0], ast.Return) and isinstance(body[0].value, ast.Call) and ast.unparse(body[0].value.func) == "len" \
+                        and len(body[0].value.args) == 1 and isinstance(body[0].value.args[0], ast.Attribute) and isinstance(body[0].value.args[0].value, ast.Name) \
+                        and body[0].value.args[0].value.id == s_.args.args[0].arg:
+                    props[s_.name] = (s_.args.args[0].arg, body[0].value, s_)
+                    public.add(s_.name)
         if not props:
             continue
         # no setter for them
@@ -235,7 +290,7 @@ def inline_private_properties(tree):
                     P(s_.args.args[0].arg).visit(s_)
         still = {x.attr for x in ast.walk(cls) if isinstance(x, ast.Attribute) and x.attr in props and not any(x in ast.walk(p[2]) for p in props.values())}
         for name, (_, _, fn) in props.items():
-            if name not in still:
+            if name not in still and name not in public:
                 cls.body = [b for b in cls.body if b is not fn] or [ast.Pass()]
                 n += 1
     return n
@@ -457,7 +512,10 @@ class Inliner:
             subst[h.self_param] = recv
         for p, a in amap.items():
             uses = sum(1 for s in h.body for n in ast.walk(s) if isinstance(n, ast.Name) and n.id == p and isinstance(n.ctx, ast.Load))
-            if p in assigned or (not simple_arg(a) and uses != 1):
+            # a single textual use inside a sequence repetition `(p,) * 3` stands for several uses of the ONE value
+            repeated = any(isinstance(m, ast.BinOp) and isinstance(m.op, ast.Mult) and any(isinstance(n, ast.Name) and n.id == p for n in ast.walk(m))
+                           for s in h.body for m in ast.walk(s))
+            if p in assigned or (not simple_arg(a) and (uses != 1 or repeated)):
                 tmp = rename.get(p) or f"_inl{tag}_{p}"
                 rename[p] = tmp
                 pre.append(ast.Assign(targets=[ast.Name(id=tmp, ctx=ast.Store())], value=copy.deepcopy(a), lineno=call.lineno, col_offset=0))
@@ -880,39 +938,107 @@ def import_private_helpers(tree, trees, pkg):
     return copied
 
 
-# ------------------------------------------------------------------------------------------- driver
-def normalise_module(tree: ast.Module):
-    info = {"constants": 0, "inlined": {}, "dropped_helpers": []}
-    from .normalize2 import ForwardTemps, NamedTupleReduce, desugar_module, inline_closures, namedtuples
-    from . import normalize2 as _n2
-    nts = namedtuples(tree)
-    _n2.NT_NAMES.clear()
-    _n2.NT_NAMES.update(nts)
-    desugar_module(tree)
-    EXTRA_PURE.clear()
-    EXTRA_PURE.update(nts)
-    CLASS_NAMES.clear()
+def _bring_names(fn, src_b, src_modname, tree, here):
+    """make the free names of `fn` (defined in another module whose bindings are src_b) available in `tree`; False if one of them
+    is bound to something else here"""
+    bound = {x.arg for x in fn.args.posonlyargs + fn.args.args + fn.args.kwonlyargs} | {x.id for x in ast.walk(fn) if isinstance(x, ast.Name) and isinstance(x.ctx, ast.Store)}
+    free = {x.id for x in ast.walk(fn) if isinstance(x, ast.Name) and isinstance(x.ctx, ast.Load)} - bound
+    need = []
+    for nm in sorted(free):
+        if nm not in src_b:
+            continue  # builtin
+        kind, mod, orig = src_b[nm]
+        want = ("import", mod, orig) if kind == "import" else ("import", src_modname, nm)
+        if nm in here:
+            if here[nm] != want and not (here[nm][0] == "import" and here[nm][2] == want[2] and (here[nm][1] or "").split(".")[-1] == (want[1] or "").split(".")[-1]):
+                return False
+        else:
+            need.append((nm, want))
+    for nm, (_, mod, orig) in need:
+        if orig is None:
+            tree.body.insert(0, ast.Import(names=[ast.alias(name=mod, asname=None if mod.split(".")[0] == nm else nm)]))
+        else:
+            tree.body.insert(0, ast.ImportFrom(module=mod, names=[ast.alias(name=orig, asname=None if orig == nm else nm)], level=0))
+        here[nm] = ("import", mod, orig)
+    return True
+
+
+def import_private_methods(tree, trees, pkg, modname):
+    """`X._helper(a, b)` where X is a module-level object built once by `C(...)` and C (defined here or imported from a module of
+    the package) has the plain private method `_helper`: the method is copied as the module function `_C_helper(self, ..)` and the
+    call becomes `_C_helper(X, a, b)`, which the helper inliner then treats like any private function."""
+    here = _module_bindings(tree)
+    stores = {}
+    for n in ast.walk(tree):
+        if isinstance(n, ast.Name) and isinstance(n.ctx, ast.Store):
+            stores[n.id] = stores.get(n.id, 0) + 1
+    classes = {}   # local class name -> (ClassDef, module tree, module name)
     for st in tree.body:
         if isinstance(st, ast.ClassDef):
-            CLASS_NAMES.add(st.name)
-        elif isinstance(st, ast.ImportFrom):
-            for a in st.names:
-                nm = a.asname or a.name
-                if nm[:1].isupper() and not nm.isupper():
-                    CLASS_NAMES.add(nm)
-    bases = {st.name: [ast.unparse(b).split("[")[0] for b in st.bases] for st in tree.body if isinstance(st, ast.ClassDef)}
-    mod, classes = collect_constants(tree)
-    info["constants"] = len(mod) + sum(len(v) for v in classes.values())
-    if mod or classes:
-        ConstSubst(mod, classes, bases).visit(tree)
-    info["closures"] = inline_closures(tree)
-    info["private_properties"] = inline_private_properties(tree)
-    AppendLoops().visit(tree)
-    Canon().visit(tree)
-    LoopNorm().visit(tree)
-    from .normalize2 import DispatchSplit
-    if DispatchSplit(CLASS_NAMES).run(tree):
+            classes[st.name] = (st, tree, f"{pkg}.{modname}")
+        elif isinstance(st, ast.ImportFrom) and st.module:
+            parts = st.module.split(".")
+            if parts[0] == pkg and len(parts) == 2 and parts[1] in trees:
+                for a in st.names:
+                    c = next((d for d in trees[parts[1]].body if isinstance(d, ast.ClassDef) and d.name == a.name), None)
+                    if c is not None:
+                        classes[a.asname or a.name] = (c, trees[parts[1]], st.module)
+    inst = {}
+    for st in tree.body:
+        if isinstance(st, ast.Assign) and isinstance(st.value, ast.Call) and isinstance(st.value.func, ast.Name) and st.value.func.id in classes:
+            for t in st.targets:
+                if isinstance(t, ast.Name) and stores.get(t.id) == len([1 for tt in st.targets if isinstance(tt, ast.Name) and tt.id == t.id]):
+                    inst[t.id] = st.value.func.id
+        # imported instances:  from pkg.mod import VEC3F   with VEC3F = C(...) there
+        if isinstance(st, ast.ImportFrom) and st.module:
+            parts = st.module.split(".")
+            if parts[0] == pkg and len(parts) == 2 and parts[1] in trees:
+                src = trees[parts[1]]
+                for a in st.names:
+                    d = next((x for x in src.body if isinstance(x, ast.Assign) and any(isinstance(t, ast.Name) and t.id == a.name for t in x.targets)
+                              and isinstance(x.value, ast.Call) and isinstance(x.value.func, ast.Name)), None)
+                    if d is not None and stores.get(a.asname or a.name, 0) == 0:
+                        cname = d.value.func.id
+                        c = next((k for k in src.body if isinstance(k, ast.ClassDef) and k.name == cname), None)
+                        if c is not None:
+                            key = f"{cname}@{parts[1]}"
+                            classes[key] = (c, src, st.module)
+                            inst[a.asname or a.name] = key
+    if not inst:
+        return []
+    copied = {}
+    done = []
+    for call in [n for n in ast.walk(tree) if isinstance(n, ast.Call)]:
+        f = call.func
+        if not (isinstance(f, ast.Attribute) and isinstance(f.value, ast.Name) and f.value.id in inst and f.attr.startswith("_") and not f.attr.startswith("__")):
+            continue
+        cdef, src, src_mod = classes[inst[f.value.id]]
+        meth = next((m for m in cdef.body if isinstance(m, ast.FunctionDef) and m.name == f.attr and not m.decorator_list), None)
+        if meth is None or not meth.args.args:
+            continue
+        cname = cdef.name
+        new_name = f"_{cname}{f.attr}"
+        if new_name not in copied:
+            if new_name in here:
+                continue
+            fn = copy.deepcopy(meth)
+            fn.name = new_name
+            if src is not tree and not _bring_names(fn, _module_bindings(src), src_mod, tree, here):
+                continue
+            tree.body.append(fn)
+            here[new_name] = ("local", None, None)
+            copied[new_name] = fn
+            done.append(f"{cname}.{f.attr}")
+        call.args = [f.value] + list(call.args)
+        call.func = ast.copy_location(ast.Name(id=new_name, ctx=ast.Load()), f)
+    if done:
         ast.fix_missing_locations(tree)
+    return done
+
+
+def _inline_helpers(tree, bases, info):
+    """the helper inlining loop; returns True when a call site was inlined"""
+    any_change = False
     for _ in range(3):
         helpers = collect_helpers(tree)
         if not helpers:
@@ -950,8 +1076,46 @@ def normalise_module(tree: ast.Module):
                         if isinstance(st, ast.ClassDef) and st.name == cname:
                             st.body = [s for s in st.body if s is not h.node] or [ast.Pass()]
                 info["dropped_helpers"].append(f"{cname + '.' if cname else ''}{fname}")
+        any_change |= changed
         if not changed:
             break
+    return any_change
+
+
+# ------------------------------------------------------------------------------------------- driver
+def normalise_module(tree: ast.Module):
+    info = {"constants": 0, "inlined": {}, "dropped_helpers": []}
+    from .normalize2 import ForwardTemps, NamedTupleReduce, desugar_module, inline_closures, namedtuples
+    from . import normalize2 as _n2
+    nts = namedtuples(tree)
+    _n2.NT_NAMES.clear()
+    _n2.NT_NAMES.update(nts)
+    desugar_module(tree)
+    EXTRA_PURE.clear()
+    EXTRA_PURE.update(nts)
+    CLASS_NAMES.clear()
+    for st in tree.body:
+        if isinstance(st, ast.ClassDef):
+            CLASS_NAMES.add(st.name)
+        elif isinstance(st, ast.ImportFrom):
+            for a in st.names:
+                nm = a.asname or a.name
+                if nm[:1].isupper() and not nm.isupper():
+                    CLASS_NAMES.add(nm)
+    bases = {st.name: [ast.unparse(b).split("[")[0] for b in st.bases] for st in tree.body if isinstance(st, ast.ClassDef)}
+    mod, classes = collect_constants(tree)
+    info["constants"] = len(mod) + sum(len(v) for v in classes.values())
+    if mod or classes:
+        ConstSubst(mod, classes, bases).visit(tree)
+    info["closures"] = inline_closures(tree)
+    info["private_properties"] = inline_private_properties(tree)
+    AppendLoops().visit(tree)
+    Canon().visit(tree)
+    LoopNorm().visit(tree)
+    from .normalize2 import DispatchSplit
+    if DispatchSplit(CLASS_NAMES).run(tree):
+        ast.fix_missing_locations(tree)
+    _inline_helpers(tree, bases, info)
     LoopNorm().visit(tree)
     info["copyprop_rounds"] = normalise_functions(tree)
     ast.fix_missing_locations(tree)
@@ -969,6 +1133,8 @@ def normalise_module(tree: ast.Module):
         again |= DispatchSplit(CLASS_NAMES).run(tree)
         # closures that were values of a dispatch table are direct calls after unrolling and propagation
         again |= bool(inline_closures(tree))
+        # helper calls that only became direct calls now (partial(f, a)(b) -> f(a, b))
+        again |= _inline_helpers(tree, bases, info)
         if not again:
             break
         ast.fix_missing_locations(tree)
@@ -1413,6 +1579,11 @@ class Canon(ast.NodeTransformer):
             a = node.body[0]
             val = ast.IfExp(test=node.test, body=a.value, orelse=ast.Name(id=a.targets[0].id, ctx=ast.Load()))
             return ast.copy_location(ast.Assign(targets=a.targets, value=val, lineno=node.lineno), node)
+        # if T: r = A  else: r = B   ==>   r = A if T else B      (r the return-value temporary of an inlined helper: `return A` / `return B`)
+        if len(node.body) == 1 and len(node.orelse) == 1 and all(isinstance(b, ast.Assign) and len(b.targets) == 1 and isinstance(b.targets[0], ast.Name) for b in (node.body[0], node.orelse[0])) \
+                and node.body[0].targets[0].id == node.orelse[0].targets[0].id and node.body[0].targets[0].id.startswith("_inl") and node.body[0].targets[0].id.endswith("_ret"):
+            val = ast.IfExp(test=node.test, body=node.body[0].value, orelse=node.orelse[0].value)
+            return ast.copy_location(ast.Assign(targets=node.body[0].targets, value=val, lineno=node.lineno), node)
         # if A: (if B: X)   ==>   if A and B: X
         if not node.orelse and len(node.body) == 1 and isinstance(node.body[0], ast.If) and not node.body[0].orelse:
             inner = node.body[0]
@@ -1457,6 +1628,26 @@ class Canon(ast.NodeTransformer):
                 first = ast.copy_location(ast.Assign(targets=[names[0]], value=node.value, lineno=node.lineno), node)
                 rest = [ast.copy_location(ast.Assign(targets=[t], value=ast.Name(id=names[0].id, ctx=ast.Load()), lineno=node.lineno), node) for t in node.targets if t is not names[0]]
                 return [first] + rest
+        # *a, b = (x, y, z)   ==>   a = [x, y]; b = z        (literal right-hand side; a starred target receives a list)
+        if len(node.targets) == 1 and isinstance(node.targets[0], (ast.Tuple, ast.List)) and isinstance(node.value, (ast.Tuple, ast.List)) \
+                and sum(isinstance(t, ast.Starred) for t in node.targets[0].elts) == 1 and not any(isinstance(e, ast.Starred) for e in node.value.elts) \
+                and all(isinstance(t, ast.Name) or (isinstance(t, ast.Starred) and isinstance(t.value, ast.Name)) for t in node.targets[0].elts) \
+                and all(isinstance(e, (ast.Constant, ast.Name)) or _pure_expr(e) for e in node.value.elts):
+            ts, vs = node.targets[0].elts, node.value.elts
+            si = next(i for i, t in enumerate(ts) if isinstance(t, ast.Starred))
+            after = len(ts) - si - 1
+            if len(vs) >= len(ts) - 1:
+                out = []
+                for i, t in enumerate(ts[:si]):
+                    out.append(ast.copy_location(ast.Assign(targets=[t], value=vs[i], lineno=node.lineno), node))
+                mid = vs[si:len(vs) - after]
+                out.append(ast.copy_location(ast.Assign(targets=[ts[si].value], value=ast.Tuple(elts=list(mid), ctx=ast.Load()), lineno=node.lineno), node))
+                for j, t in enumerate(ts[si + 1:]):
+                    out.append(ast.copy_location(ast.Assign(targets=[t], value=vs[len(vs) - after + j], lineno=node.lineno), node))
+                return out
+        # a = b = K   ==>   a = K; b = K      (K a literal)
+        if len(node.targets) > 1 and all(isinstance(t, ast.Name) for t in node.targets) and isinstance(node.value, ast.Constant):
+            return [ast.copy_location(ast.Assign(targets=[t], value=copy.deepcopy(node.value), lineno=node.lineno), node) for t in node.targets]
         # (x,) = v   ==>   x = v[0]
         if len(node.targets) == 1 and isinstance(node.targets[0], (ast.Tuple, ast.List)) and len(node.targets[0].elts) == 1 \
                 and isinstance(node.targets[0].elts[0], ast.Name) and not isinstance(node.value, (ast.Tuple, ast.List)):
@@ -1468,6 +1659,31 @@ class Canon(ast.NodeTransformer):
             names = [t.id for t in node.targets[0].elts]
             reads = {x.id for v in node.value.elts for x in ast.walk(v) if isinstance(x, ast.Name)}
             if not (set(names) & reads):
+                return [ast.copy_location(ast.Assign(targets=[t], value=v, lineno=node.lineno), node) for t, v in zip(node.targets[0].elts, node.value.elts)]
+        # _, x = next(((A, B) for ..), (DA, DB))   ==>   x = next((B for ..), DB)        (`_` is the conventional discard)
+        if len(node.targets) == 1 and isinstance(node.targets[0], ast.Tuple) and all(isinstance(t, ast.Name) for t in node.targets[0].elts) \
+                and isinstance(node.value, ast.Call) and ast.unparse(node.value.func) == "next" and len(node.value.args) == 2 and not node.value.keywords \
+                and isinstance(node.value.args[0], ast.GeneratorExp) and isinstance(node.value.args[0].elt, ast.Tuple) and isinstance(node.value.args[1], ast.Tuple) \
+                and len(node.value.args[0].elt.elts) == len(node.value.args[1].elts) == len(node.targets[0].elts):
+            keep = [k for k, t in enumerate(node.targets[0].elts) if t.id != "_"]
+            if len(keep) == 1:
+                k = keep[0]
+                gen = ast.GeneratorExp(elt=node.value.args[0].elt.elts[k], generators=node.value.args[0].generators)
+                call = ast.Call(func=node.value.func, args=[gen, node.value.args[1].elts[k]], keywords=[])
+                return ast.copy_location(ast.Assign(targets=[node.targets[0].elts[k]], value=self.visit(call), lineno=node.lineno), node)
+        # a.x, b = E1, E2  ==>  a.x = E1; b = E2     (every later value is pure and reads neither an earlier target nor its object)
+        if len(node.targets) == 1 and isinstance(node.targets[0], ast.Tuple) and isinstance(node.value, ast.Tuple) \
+                and len(node.targets[0].elts) == len(node.value.elts) \
+                and all(isinstance(t, ast.Name) or (isinstance(t, ast.Attribute) and isinstance(t.value, ast.Name)) for t in node.targets[0].elts) \
+                and any(isinstance(t, ast.Attribute) for t in node.targets[0].elts):
+            okk = True
+            for j, v in enumerate(node.value.elts):
+                if j == 0:
+                    continue
+                earlier = {(t.id if isinstance(t, ast.Name) else t.value.id) for t in node.targets[0].elts[:j]}
+                if not _pure_expr(v) or any(isinstance(x, ast.Name) and x.id in earlier for x in ast.walk(v)):
+                    okk = False
+            if okk:
                 return [ast.copy_location(ast.Assign(targets=[t], value=v, lineno=node.lineno), node) for t, v in zip(node.targets[0].elts, node.value.elts)]
         if len(node.targets) == 1 and isinstance(node.value, ast.BinOp) and isinstance(node.targets[0], (ast.Name, ast.Attribute, ast.Subscript)):
             t = ast.unparse(node.targets[0])
@@ -1498,6 +1714,14 @@ class Canon(ast.NodeTransformer):
                 return ast.copy_location(ast.BoolOp(op=ast.And(), values=[node.test, node.body]), node)
             if ast.unparse(node.body) == tt:
                 return ast.copy_location(ast.BoolOp(op=ast.Or(), values=[node.test, node.orelse]), node)
+        # X if c else True  ==>  not c or X ;   X if c else False  ==>  c and X      (boolean position: X is a comparison / test itself)
+        def _boolish(e):
+            return isinstance(e, (ast.Compare, ast.BoolOp)) or (isinstance(e, ast.UnaryOp) and isinstance(e.op, ast.Not)) \
+                or (isinstance(e, ast.Call) and ast.unparse(e.func) in ("isinstance", "any", "all", "bool"))
+        if isinstance(node.orelse, ast.Constant) and isinstance(node.orelse.value, bool) and _boolish(node.body) and _boolish(node.test):
+            if node.orelse.value:
+                return ast.copy_location(ast.BoolOp(op=ast.Or(), values=[ast.UnaryOp(op=ast.Not(), operand=node.test), node.body]), node)
+            return ast.copy_location(ast.BoolOp(op=ast.And(), values=[node.test, node.body]), node)
         # (P if E else None) is not None  ==>  E ; inside the branch where E holds the optional IS P
         oe = self._opt_elem(node.test)
         if oe is not None:
@@ -1518,6 +1742,33 @@ class Canon(ast.NodeTransformer):
 
     def visit_Compare(self, node):
         self.generic_visit(node)
+        # None == K / None != K  with K a literal that is not None
+        def _lit(e):
+            # (.. or the shape of an array / dtype: always a tuple)
+            return (isinstance(e, ast.Constant) and e.value is not None) or (isinstance(e, ast.Tuple) and all(isinstance(x, ast.Constant) for x in e.elts)) \
+                or (isinstance(e, ast.Attribute) and e.attr == "shape")
+        if len(node.ops) == 1 and isinstance(node.ops[0], (ast.Eq, ast.NotEq)):
+            a, b = node.left, node.comparators[0]
+            for x, y in ((a, b), (b, a)):
+                if isinstance(x, ast.Constant) and x.value is None and _lit(y):
+                    return ast.copy_location(ast.Constant(value=isinstance(node.ops[0], ast.NotEq)), node)
+        # {E for ..} <= {K}   ==>   all(E == K for ..)       (a set is inside a one-element set iff each of its elements is that element;
+        #                                                     K a literal / enum member, so == on it is the set's own notion of equality)
+        if len(node.ops) == 1 and isinstance(node.ops[0], ast.LtE) and isinstance(node.comparators[0], ast.Set) and len(node.comparators[0].elts) == 1 \
+                and (isinstance(node.comparators[0].elts[0], ast.Constant) or _enum_member(node.comparators[0].elts[0])):
+            L = node.left
+            if isinstance(L, ast.Call) and ast.unparse(L.func) in ("set", "frozenset") and len(L.args) == 1 and isinstance(L.args[0], (ast.GeneratorExp, ast.ListComp)):
+                L = L.args[0]
+            if isinstance(L, (ast.SetComp, ast.GeneratorExp, ast.ListComp)):
+                K = node.comparators[0].elts[0]
+                gen = ast.GeneratorExp(elt=ast.Compare(left=L.elt, ops=[ast.Eq()], comparators=[K]), generators=L.generators)
+                return ast.copy_location(ast.Call(func=ast.Name(id="all", ctx=ast.Load()), args=[gen], keywords=[]), node)
+        # (A if c else B) op K  ==>  (A op K) if c else (B op K)      (K a literal; c pure)
+        if len(node.ops) == 1 and isinstance(node.ops[0], (ast.Eq, ast.NotEq)) and isinstance(node.left, ast.IfExp) and (_lit(node.comparators[0]) or _pure_expr(node.comparators[0])) \
+                and _pure_expr(node.left.test) and _pure_expr(node.left.body) and _pure_expr(node.left.orelse):
+            ie = node.left
+            mk = lambda v: self.visit_Compare(ast.copy_location(ast.Compare(left=v, ops=[copy.deepcopy(node.ops[0])], comparators=[copy.deepcopy(node.comparators[0])]), node))
+            return self.visit_IfExp(ast.copy_location(ast.IfExp(test=ie.test, body=mk(ie.body), orelse=mk(ie.orelse)), node))
         # a == b == c  ==>  a == b and b == c     (b free of calls)
         if len(node.ops) > 1 and all(isinstance(o, (ast.Eq, ast.Is)) for o in node.ops) \
                 and not any(isinstance(x, ast.Call) for c in node.comparators[:-1] for x in ast.walk(c)):
@@ -1648,6 +1899,17 @@ class Canon(ast.NodeTransformer):
                 for v in vals[1:]:
                     out = ast.BinOp(left=out, op=ast.Add(), right=v)
                 return ast.copy_location(out, node)
+        # next((E for v in L), D) / next((E for v in reversed(L)), D)   ==>   E[L[0]] / E[L[-1]]  if L else  D
+        # (an unfiltered generator yields its first element iff the sequence is not empty; L a name / attribute path, E pure)
+        if fname == "next" and len(node.args) == 2 and isinstance(node.args[0], ast.GeneratorExp) and len(node.args[0].generators) == 1 \
+                and not node.args[0].generators[0].ifs and isinstance(node.args[0].generators[0].target, ast.Name) and _pure_expr(node.args[0].elt):
+            g = node.args[0].generators[0]
+            L, idx = g.iter, 0
+            if isinstance(L, ast.Call) and ast.unparse(L.func) == "reversed" and len(L.args) == 1:
+                L, idx = L.args[0], -1
+            if isinstance(L, (ast.Name, ast.Attribute)) and all(isinstance(x, (ast.Name, ast.Attribute)) or isinstance(x, ast.expr_context) for x in ast.walk(L)):
+                elem = ast.Subscript(value=copy.deepcopy(L), slice=ast.Constant(value=idx), ctx=ast.Load())
+                return ast.copy_location(ast.IfExp(test=copy.deepcopy(L), body=_subst_names(node.args[0].elt, {g.target.id: elem}), orelse=node.args[1]), node)
         # next((True for .. if c), False)  ==>  any(c for ..)
         if fname == "next" and len(node.args) == 2 and isinstance(node.args[0], ast.GeneratorExp) and len(node.args[0].generators) == 1 \
                 and isinstance(node.args[0].elt, ast.Constant) and node.args[0].elt.value is True and isinstance(node.args[1], ast.Constant) and node.args[1].value is False:
@@ -1719,13 +1981,23 @@ class Canon(ast.NodeTransformer):
 
     def _fuse(self, node):
         node = self._index_pairs(node)
+        # (E for n, v in enumerate(X) if c)  with n unused  ==>  (E for v in X if c)
+        for gi, g in enumerate(node.generators):
+            if isinstance(g.target, ast.Tuple) and len(g.target.elts) == 2 and isinstance(g.target.elts[0], ast.Name) and isinstance(g.iter, ast.Call) \
+                    and ast.unparse(g.iter.func) == "enumerate" and len(g.iter.args) == 1 and not g.iter.keywords:
+                nname = g.target.elts[0].id
+                rest = [node.elt] + [c for gg in node.generators[gi:] for c in gg.ifs] + [gg.iter for gg in node.generators[gi + 1:]] + \
+                    ([node.key, node.value] if isinstance(node, ast.DictComp) else [])
+                if not any(isinstance(x, ast.Name) and x.id == nname for r in rest if r is not None for x in ast.walk(r)):
+                    g.target = g.target.elts[1]
+                    g.iter = g.iter.args[0]
         # [F(v) for v in (E for x in IT)]  ==>  [F(E) for x in IT]
         if len(node.generators) == 1 and not node.generators[0].ifs and isinstance(node.generators[0].target, ast.Name) \
                 and isinstance(node.generators[0].iter, (ast.GeneratorExp, ast.ListComp)) and len(node.generators[0].iter.generators) == 1:
             inner = node.generators[0].iter
             v = node.generators[0].target.id
             uses = sum(1 for x in ast.walk(node.elt) if isinstance(x, ast.Name) and x.id == v)
-            if uses == 1 or not any(isinstance(x, ast.Call) for x in ast.walk(inner.elt)):
+            if uses == 1 or not any(isinstance(x, ast.Call) for x in ast.walk(inner.elt)) or _pure_expr(inner.elt):
                 node.elt = _subst_names(node.elt, {v: inner.elt})
                 node.generators = inner.generators
         return node
@@ -2346,6 +2618,8 @@ def normalise_functions(tree, _depth=0):
             ast.fix_missing_locations(node)
     AppendLoops().visit(tree)
     Canon().visit(tree)
+    from .normalize2 import WhileToFor
+    WhileToFor().run(tree)      # counters whose initialisation was part of a tuple assignment until Canon split it
     n = 0
     for node in ast.walk(tree):
         if isinstance(node, ast.FunctionDef):
